@@ -35,6 +35,7 @@ type Case struct {
 	Name   string `json:"name"`
 	Cfg    Cfg    `json:"cfg"`
 	IdleMs int    `json:"idle_ms,omitempty"` // IdleTimeout of the server (default 1000)
+	ReadMs int    `json:"read_ms,omitempty"` // ReadTimeout of the server (default 500)
 	Ops    []Op   `json:"ops"`
 }
 
@@ -398,6 +399,7 @@ func (cs *caseRun) stepHTTP(p *peer, data []byte, class int, cookie string, n in
 	ts.mu.Lock()
 	nconn := len(ts.conns)
 	ts.mu.Unlock()
+	before := ts.s.VerifLedger().HTTPReadChannels
 	p.write(data)
 	readHTTP := func() string {
 		p.rc.SetReadDeadline(time.Now().Add(cs.answerWait()))
@@ -442,7 +444,6 @@ func (cs *caseRun) stepHTTP(p *peer, data []byte, class int, cookie string, n in
 		cs.emit(fmt.Sprintf("hostile in %d ws %s", p.id, b01(wsOK)), cs.observe(answer))
 		p.raw = true
 	case hGet:
-		before := ts.s.VerifLedger().HTTPReadChannels
 		answer := readHTTP()
 		p.cookie = cookie
 		p.isGet = true
@@ -627,6 +628,9 @@ func (cs *caseRun) finish() {
 func runCase(c *Case, idle, read time.Duration, seed uint64) (*caseRun, error) {
 	if c.IdleMs > 0 {
 		idle = time.Duration(c.IdleMs) * time.Millisecond
+	}
+	if c.ReadMs > 0 {
+		read = time.Duration(c.ReadMs) * time.Millisecond
 	}
 	ts, err := startServer(c.Cfg, idle, read, seed)
 	if err != nil {
